@@ -29,6 +29,7 @@ pub fn contract_decompress(compressed_data: &[u8], _verify: bool, _loglevel: u32
 
 /// CONTRACT of skip_gzip_header (discharged by k01_gzip_hdr_16): Err, or Ok after consuming >= 10 bytes
 pub fn contract_skip_gzip<R: Read>(reader: &mut R) -> Result<()> {
+    // (if the real function's bounds change, this stub stops matching: build failure = inconclusive)
     let k: usize = kani::any();
     kani::assume(k >= 10 && k <= 16);
     let mut b = [0u8; 16];
@@ -105,8 +106,12 @@ kproof! {
     #[kani::stub(crate::scan_deflate::parse_zip_stream, contract_parse_zip)]
     #[kani::stub(crate::idat_parse::parse_idat, contract_parse_idat)]
     fn k01a_scan_tiling_8() {
-        let data: [u8; 8] = kani::any();
-        kani::assume(signature_hits(&data) <= 2);
+        // two symbolic 2-byte windows (each may or may not be a signature) in an otherwise zero file:
+        // symbolic execution forks on every byte pair that *could* be a signature, so the number of
+        // symbolic pairs, not the file length, is what bounds the cost (8 symbolic bytes: > 18 GB)
+        let mut data = [0u8; 8];
+        let w: [u8; 4] = kani::any();
+        data[1] = w[0]; data[2] = w[1]; data[5] = w[2]; data[6] = w[3];
         let mut locs: Vec<BlockChunk> = Vec::with_capacity(8);
         split_into_deflate_streams(&data[..], &mut locs, 0);
         let saw = check_tiling(&locs, 8, 6);
@@ -125,17 +130,50 @@ kproof! {
     #[kani::stub(crate::idat_parse::parse_idat, contract_parse_idat)]
     fn k01a_scan_tiling_big() {
         const N: usize = 1056;
-        let head: [u8; 16] = kani::any();
-        kani::assume(signature_hits(&head) <= 2);
+        // two symbolic 2-byte windows at offsets 4 and 12 in a zero file (see k01a_scan_tiling_8)
+        let w: [u8; 4] = kani::any();
         let mut data = [0u8; N];
-        let mut i = 0;
-        while i < 16 { data[i] = head[i]; i += 1; }
+        data[4] = w[0]; data[5] = w[1]; data[12] = w[2]; data[13] = w[3];
         let mut locs: Vec<BlockChunk> = Vec::with_capacity(8);
         split_into_deflate_streams(&data[..], &mut locs, 0);
         let saw = check_tiling(&locs, N, 6);
         kani::cover!(saw, "a stream chunk was emitted");
         kani::cover!(locs.len() >= 4, "two streams accepted");
         kani::cover!(locs.len() >= 2 && matches!(locs[1], BlockChunk::IDATDeflate(..)), "an IDAT run was accepted");
+        core::mem::forget(locs);
+    }
+}
+
+/// CONTRACT of split_into_deflate_streams for files in which no analysis call accepts (discharged by
+/// k01a_scan_reject_all_8): exactly one literal chunk covering the file, none for the empty file
+pub fn contract_split_literal_only(src: &[u8], locations_found: &mut Vec<BlockChunk>, _loglevel: u32) {
+    if !src.is_empty() {
+        locations_found.push(BlockChunk::Literal(src.len()));
+    }
+}
+pub fn reject_decompress(_d: &[u8], _v: bool, _l: u32) -> core::result::Result<DecompressResult, crate::preflate_error::PreflateError> {
+    Err(crate::preflate_error::PreflateError::new(ExitCode::InvalidDeflate, ""))
+}
+kproof! {
+    /// K01a-reject: when every analysis call rejects, the real scanner returns one literal chunk covering the
+    /// file (the contract the zstd / C-ABI harnesses use for files that hold no acceptable stream)
+    #[kani::stub(crate::preflate_container::decompress_deflate_stream, reject_decompress)]
+    #[kani::stub(crate::scan_deflate::skip_gzip_header, contract_skip_gzip)]
+    #[kani::stub(crate::scan_deflate::parse_zip_stream, contract_parse_zip)]
+    #[kani::stub(crate::idat_parse::parse_idat, contract_parse_idat)]
+    fn k01a_scan_reject_all_8() {
+        let mut data = [0u8; 8];
+        let w: [u8; 4] = kani::any();
+        data[0] = w[0]; data[1] = w[1]; data[4] = w[2]; data[5] = w[3];
+        let n: usize = if kani::any() { 8 } else { 3 };
+        let mut locs: Vec<BlockChunk> = Vec::with_capacity(4);
+        split_into_deflate_streams(&data[..n], &mut locs, 0);
+        {
+            assert!(locs.len() == 1);
+            assert!(matches!(locs[0], BlockChunk::Literal(k) if k == n), "file without accepted stream is not one literal chunk");
+        }
+        kani::cover!(n == 8 && signature_hits(&data) == 2, "two look-alikes, both rejected");
+        kani::cover!(n == 3, "three-byte file");
         core::mem::forget(locs);
     }
 }
